@@ -479,6 +479,8 @@ class Num(Val):
         self.mid = None         # D8 memory identity: arrays with the same mid share storage
         self.whole = True       # ... and hold the same elements in the same order (same object / zero-copy identity), not a partial view
         self.grid = None        # integer index grid: value at (i, k) = ai*i + ak*k + c, stored as (ai, ak, c); 1-D vectors use ak = 0
+        self.idxseg = None      # 1-D integer index vector as pieces (n, first value, step +-1): arange and concatenations of aranges
+        self.fsf = None         # exact value as a multiple of the sampling rate: value = fsf * sampling (sympy expression in the sizes)
         self.intdt = False      # the value may be held in the INTEGER dtype of integer-typed input data (products can overflow)
         self.rowview = None     # this vector is the row view M[e] of a named local matrix: (name, index AST, {name: id(value)} of the index operands)
         self.conj_of = None     # uid of the array this one is the complex conjugate of
@@ -500,6 +502,8 @@ class Num(Val):
         c.view_of, c.mid, c.whole, c.clob = self.view_of, self.mid, self.whole, self.clob
         c.rowview, c.rowof, c.grid, c.idx, c.conj_of = self.rowview, self.rowof, self.grid, self.idx, self.conj_of
         c.intdt = self.intdt
+        c.fsf = self.fsf
+        c.idxseg = self.idxseg
         return c
 
     def copy(self, **kw):
@@ -812,6 +816,19 @@ def broadcast(s1, s2):
         else:
             out.append(None)     # mismatch is numpy's business, not ours
     return tuple(out)
+
+
+class PartialV(Val):
+    """functools.partial(func, *args, **kwargs)"""
+
+    def __init__(self, func, args, kwargs):
+        self.func = func
+        self.args = list(args)
+        self.kwargs = dict(kwargs)
+        self.taint = frozenset()
+
+    def __repr__(self):
+        return 'partial(%r)' % (self.func,)
 
 
 class SeqV(Val):
